@@ -98,6 +98,8 @@ def visit(expr, previsitor, postvisitor=None):
     elif isinstance(expr, (list, tuple)):
         for child in expr:
             visit(child, previsitor, postvisitor)
+    elif getattr(expr, 'is_keyword_arg', False):
+        visit(expr.expr, previsitor, postvisitor)
 
 
 class SymbolCounter:
